@@ -48,6 +48,7 @@ type CaseD struct {
 	Port   uint16  `json:"port"`
 	Ops    []OpD   `json:"ops"`
 	Close  string  `json:"close"` // how the client ends: none fin rst
+	Cfg    Cfg     `json:"cfg,omitempty"` // configuration / environment of the fixture (cfg_test.go)
 }
 
 // how long the harness waits for a state (a task appearing in the queue, a reply the server
@@ -78,6 +79,7 @@ func genD(t *rapid.T) CaseD {
 		c.Ops = append(c.Ops, op)
 	}
 	c.Close = []string{"none", "fin", "rst", "none"}[agentfx.Bits(t, "close", 2)]
+	c.Cfg = genCfg(t, 1)
 	// SCALE (1 case in 60): a burst of a threshold-adjacent number of relay packets is put
 	// before / between / after the operations above
 	if agentfx.Weighted(t, "scale", 59, 1) == 1 {
@@ -163,7 +165,7 @@ func operatorSocket(w *world, command, param string) (map[string]string, error) 
 
 func checkD(c CaseD) *core.Violation {
 	lastD = obsD{}
-	w, err := newWorld(1)
+	w, err := newWorldCfg(1, c.Cfg)
 	if err != nil {
 		return core.V("harness|fixture", "%v", err)
 	}
@@ -238,7 +240,7 @@ func checkD(c CaseD) *core.Violation {
 	}
 	// ... and reports success with its next check-in (Socket.c: [CONNECT][Success][socket id][error code])
 	cb := (&demonref.Enc{}).Int32(agent.SOCKET_COMMAND_CONNECT).Bool(true).Int32(m.sock).Int32(0).B
-	code, tasks, ok := w.ep.CheckIn(w.ses[0], true, []demonref.Sub{{Cmd: agent.COMMAND_SOCKET, ReqID: 0, Body: cb}})
+	code, tasks, ok := w.CheckIn(w.ses[0], true, []demonref.Sub{{Cmd: agent.COMMAND_SOCKET, ReqID: 0, Body: cb}})
 	w.rec.Take()
 	if code != 200 || !ok || !agentfx.IsNoJob(tasks) {
 		return core.V("d|extra-task", "the check-in carrying the connect-success callback was answered with HTTP %d / %d task(s) although nothing is queued", code, len(tasks))
@@ -366,6 +368,7 @@ func classifyD(c CaseD) core.Class {
 	if o.mixed {
 		cl.Labels = append(cl.Labels, "operator-task-between-relay-writes")
 	}
+	cl.Labels = append(cl.Labels, c.Cfg.labels()...)
 	cl.Labels = append(cl.Labels, scaleLabel("relay-packets-of-one-client", o.writes)...)
 	cl.Labels = append(cl.Labels, scaleLabel("relay-packets-between-check-ins", o.maxRun)...)
 	cl.Labels = append(cl.Labels, scaleLabel("queued-jobs-at-a-check-in", o.maxQueued)...)
@@ -374,6 +377,7 @@ func classifyD(c CaseD) core.Class {
 	cl.Labels = append(cl.Labels, scaleLabel("check-ins-per-history", o.checkins)...)
 	cl.NonTrivial = o.maxQueued >= 2
 	cl.Fingerprint = fmt.Sprintf("run=%s|q=%s|mixed=%v|close=%s", runL, bucket(o.maxQueued), o.mixed, c.Close)
+	cl.Fingerprint += c.Cfg.fp()
 	if sw, sb, sc := scaleBucket(o.writes), scaleBucket(o.maxBatch), scaleBucket(o.maxCutBatch); sw+sb+sc != "" {
 		cl.Fingerprint += "|scale=" + sw + "/" + sb + "/" + sc
 	}
@@ -384,7 +388,7 @@ func TestC04d(t *testing.T) {
 	big()
 	core.Run(t, core.Spec[CaseD]{
 		Property: "C04", Sub: "d",
-		Rule: "one agent with a SOCKS5 proxy started by the real operator command (socks add <free loopback port>); a real TCP client does the no-auth greeting and CONNECT to a generated IPv4 target; the harness plays the agent (connect task fetched at a check-in, connect-success callback with the next one); then 1-16 operations: the client writes a piece of 1-1400 generated bytes (awaited into the queue as its own relay task: the harness waits until the queue grew), an operator-path task, a check-in; optionally the client closes (FIN or RST) and the resulting close task is awaited; the queue is drained. Oracle: the (a) oracle over what the agent receives, where relay write tasks must carry, in order, exactly the bytes the client wrote (compared at hand-out) under the socket id the connect task announced. Non-trivial: a check-in saw >=2 queued tasks; distinct = (relay writes between two check-ins 0/1/2/3+, max queued bucket, operator task between relay writes, how the client ended). SCALE (1 case in 60): a burst of N relay packets of 1-16 bytes, N from the threshold-adjacent pool {63,64,65, 127..129, 255..257, 511..513, 999..1001, 1023..1025, 2047..2049} (cut at 2049 in the quick tier - every packet is a real TCP write awaited into the queue, about 0.1-0.5 ms each; thorough: up to 8193), placed before / between / after the ordinary operations, either left queued (then, in 1 of 2, followed by one operator task of 1 MiB / limit-70000 / limit-8 / limit+1 bytes so that the reply taking the burst meets the size cut) or with a check-in after every 1/2/3/16/100/1000/1023/1024 packets; same oracle; labels scale:<count>:<bucket> for packets, queued jobs, jobs in one reply (with / without a remainder) and check-ins",
+		Rule: "one agent with a SOCKS5 proxy started by the real operator command (socks add <free loopback port>); a real TCP client does the no-auth greeting and CONNECT to a generated IPv4 target; the harness plays the agent (connect task fetched at a check-in, connect-success callback with the next one); then 1-16 operations: the client writes a piece of 1-1400 generated bytes (awaited into the queue as its own relay task: the harness waits until the queue grew), an operator-path task, a check-in; optionally the client closes (FIN or RST) and the resulting close task is awaited; the queue is drained. Oracle: the (a) oracle over what the agent receives, where relay write tasks must carry, in order, exactly the bytes the client wrote (compared at hand-out) under the socket id the connect task announced. Non-trivial: a check-in saw >=2 queued tasks; distinct = (relay writes between two check-ins 0/1/2/3+, max queued bucket, operator task between relay writes, how the client ended). SCALE (1 case in 60): a burst of N relay packets of 1-16 bytes, N from the threshold-adjacent pool {63,64,65, 127..129, 255..257, 511..513, 999..1001, 1023..1025, 2047..2049} (cut at 2049 in the quick tier - every packet is a real TCP write awaited into the queue, about 0.1-0.5 ms each; thorough: up to 8193), placed before / between / after the ordinary operations, either left queued (then, in 1 of 2, followed by one operator task of 1 MiB / limit-70000 / limit-8 / limit+1 bytes so that the reply taking the burst meets the size cut) or with a check-in after every 1/2/3/16/100/1000/1023/1024 packets; same oracle; labels scale:<count>:<bucket> for packets, queued jobs, jobs in one reply (with / without a remainder) and check-ins" + cfgRule,
 		Gen:  genD, Check: checkD, Classify: classifyD,
 		Assumptions: []string{
 			"a case in which the fixture cannot be established within 20 s (no free port, greeting / connect reply / relay task not appearing) is counted as skipped (evidence extra skipped_cases_d), never as a violation: whether the relay reacts at all is C15's property",
